@@ -2,28 +2,26 @@
 import vlib
 from props import solverstream as ss
 
-THEOREMS = []
-CHECKER = ("harness solve_cases under catch_unwind + poll watchdog + output-size cap, debug and release, sync and "
-           "yielding runtimes, rendering of every conflict (graph, graphviz, message)")
+THEOREMS = ["C04_render_terminates", "C04_render_fuel_irrelevant", "C04_render_lines_linear", "C04_render_lines_fine",
+            "C04_render_lines_quadratic", "C04_render_size_bound", "C04_simplify_order_independent", "C04_dfs_fuel_sufficient",
+            "C04_pre_fix_renderer_loops", "C04_path_only_exponential"]
+CHECKER = ("coqc Props/C04.v + Print Assumptions; harness solve_cases under catch_unwind + poll watchdog + output-size cap, debug "
+           "and release, sync and yielding runtimes; every conflict message compared BYTE FOR BYTE with the extracted renderer model "
+           "(Conflict/Render.v) and its line count with the proven bound lin_bound; a sample re-proved inside Coq")
 
 
 def bound(g):
-    # message size bound claimed for the renderer: linear in the conflict graph
-    return 400 * (len(g["nodes"]) + len(g["edges"]) + 2)
+    # proven line bound of the renderer model (Render.lin_bound) times a generous line length
+    from props import render_tie
+    return 400 * render_tie.line_bound(g)
 
 
 def run(res, tier, seed, replay):
-    if THEOREMS:
-        vlib.proof_gate(res, "C04", THEOREMS)
-    else:
-        bad = vlib.scan_forbidden()
-        res.obligation(not bad, "forbidden construct in Coq sources: " + "; ".join(bad[:5]) if bad else None)
-        ok, out = vlib.coq_make(["Spec/Oracle.vo"])
-        res.obligation(ok, None if ok else "Coq development no longer builds: " + out[-1500:])
+    vlib.proof_gate(res, "C04", THEOREMS)
     if replay:
         recs, hangs = ss.run_replay(replay, render=True), []
     else:
-        recs = ss.corpus_recs("C04", render=True)
+        recs = ss.corpus_recs("C04", render=True) + ss.corpus_recs("C04_render", render=True)
         n = 1 if tier == "quick" else 40
         streams = [("small", 255, "sync", "debug", 1500 * n), ("small", 255, "sync", "release", 1000 * n),
                    ("dense", 255, "sync", "debug", 800 * n), ("dense", 255, "sync", "release", 700 * n),
@@ -55,6 +53,31 @@ def run(res, tier, seed, replay):
                 if c["msg_bytes"] > b:
                     res.violation(key, f"message of {c['msg_bytes']} bytes exceeds the bound {b} for a graph of "
                                   f"{len(c['graph']['nodes'])} nodes / {len(c['graph']['edges'])} edges", ss.replay_obj(r))
+    # ---- renderer model: byte-for-byte message, proven line bound, in-Coq sample
+    from props import render_tie
+    rrecs = [r for r in recs if r["obs"].get("conflict") and render_tie.usable(r)]
+    seen_keys, uniq = set(), []
+    for r in rrecs:
+        kk = (ss.case_key(r["case"]),)
+        if kk not in seen_keys:
+            seen_keys.add(kk)
+            uniq.append(r)
+    mism = render_tie.check_messages(uniq)
+    for r, model_msg, real_msg in mism[:20]:
+        res.tie_break(f"conflict message differs from the renderer model (Conflict/Render.v) in {r['stream']}; the message is finite and "
+                      f"within the size cap", {"case": r["case"], "real": real_msg[:2000] if isinstance(real_msg, str) else str(real_msg)[:2000],
+                                               "model": model_msg[:2000] if isinstance(model_msg, str) else str(model_msg)[:2000]})
+    nb, bviol, bratio = render_tie.check_bounds(uniq)
+    for v in bviol[:5]:
+        r = v[0] if isinstance(v, (list, tuple)) else v
+        res.violation(ss.case_key(r["case"]), "conflict message has more lines than the proven bound lin_bound of its graph", ss.replay_obj(r))
+    ncoq, ncoq_ok, cfailed = render_tie.replay_in_coq(uniq, limit=(30 if tier == "quick" else 200), prop="C04")
+    res.obligations += ncoq
+    res.discharged += ncoq_ok
+    for f in cfailed[:5]:
+        res.tie_break(f"in-Coq replay of a conflict message failed: {str(f)[:300]}", {"failed": str(f)[:2000]})
+    res.extra.update({"messages_compared_with_model": len(uniq), "message_mismatches": len(mism),
+                      "max_lines_over_proven_bound": round(bratio, 3), "in_coq_message_examples": ncoq})
     res.rule = ("all feature masks incl. hints x exclusions x locks x soft requirements x cycles; debug and release; "
                 "every Unsolvable is rendered (graph, graphviz plain+simplified, message under a 1 MiB cap and a linear "
                 "bound); non-trivial = Unsolvable, or Ok with >= 2 solvables")
